@@ -458,6 +458,20 @@ func genDivision(r *hx.RNG, tier string) (u, v []decimal.Word, cls string) {
 			ql = r.Range(n/2, 2*n)
 		}
 		q := genWords(r, ql)
+		if n >= 100 && r.Chance(30) {
+			// a divisor of all nines (its low third may be anything), a quotient of all nines, a remainder just below the
+			// divisor (u = v*B^k - small): every correction of a block's remainder adds v back next to the top of its range
+			for i := r.Range(0, n/3); i < n; i++ {
+				v[i] = decimal.Word(wb - 1)
+			}
+			q = make([]decimal.Word, r.Range(1, 2*n))
+			for i := range q {
+				q[i] = decimal.Word(wb - 1)
+			}
+			ub := new(big.Int).Mul(wordsToBig(q), wordsToBig(v))
+			ub.Add(ub, new(big.Int).Sub(wordsToBig(v), big.NewInt(int64(r.Range(1, 1000)))))
+			return bigToWords(ub), v, "nines-divisor-nines-quotient-remainder-next-to-divisor"
+		}
 		ub := new(big.Int).Mul(wordsToBig(q), wordsToBig(v))
 		if r.Bool() {
 			ub.Add(ub, new(big.Int).Sub(wordsToBig(v), big.NewInt(1)))
